@@ -17,7 +17,9 @@ import (
 func init() { Registry["C13"] = C13 }
 
 var c13Lines = []string{"  - test_id: 5", "test_id: abc", "  test_id:   7  ", "- test_title: 920100-3", "test_title: \"x\"", "desc: foo", "  data: x  ", "---", "# c", "", "   ",
-	"  - test_id: ", "  test_title:  \t", "  - test_id: \"8\"", "\tdata: y\t", "  data: é\u00a0"}
+	"  - test_id: ", "  test_title:  \t", "  - test_id: \"8\"", "\tdata: y\t", "  data: é\u00a0",
+	// values with a colon inside
+	"  - test_id: \"12:30\"", "    test_title: \"920100-7: GET: x\""}
 
 type c13Variant struct {
 	CRLF     bool
@@ -316,7 +318,9 @@ func C13(r *core.Run) {
 		{"tests:\n  - test_title: 920100-4", "tests:\n  - test_title: FILE-1\n"},
 		{"tests:\n  - test_id: 5\n    test_title: 1-9\n  - test_id: 5\n    test_title: 1-9\n", "tests:\n  - test_id: 1\n    test_title: FILE-1\n  - test_id: 2\n    test_title: FILE-2\n"},
 	}
-	c13Names := []string{"REQUEST-123-TEST/123456.yaml", "REQUEST-123-TEST/123457.yml", "REQUEST-223-OTHER/223456.yaml"}
+	// where the three test files are: one directory level (the usual layout), or directly in the tests directory and two levels down
+	c13NameSets := [][]string{{"REQUEST-123-TEST/123456.yaml", "REQUEST-123-TEST/123457.yml", "REQUEST-223-OTHER/223456.yaml"},
+		{"REQUEST-123-TEST/123456.yaml", "123457.yml", "REQUEST-223-OTHER/sub/223456.yaml"}}
 	alls, d3 := core.Parallel(r, "all", spec, r.Workers, func(in in, shard, n int, emit func(allRes)) {
 		wd := filepath.Join(in.Dir, fmt.Sprint("a", shard))
 		var o allRes
@@ -328,6 +332,7 @@ func C13(r *core.Run) {
 					continue
 				}
 				st := []int{a % k, a / k % k, a / k / k}
+				c13Names := c13NameSets[(a+mode/2)%2]
 				os.RemoveAll(wd)
 				t := miniCRS()
 				delete(t, "tests/regression/tests/REQUEST-123-TEST/123456.yaml")
